@@ -327,7 +327,7 @@ func c07Build(res *explore.Result, g *gram.Grammar, inputs [][]byte, verbose boo
 			res.Add("cases_skipped_after_meter_tripped", 1)
 			continue
 		}
-		c := Case{Grammar: gs, Input: string(w)}
+		c := Case{Prior: b.MemoBefore, Grammar: gs, Input: string(w)}
 		run := func(blame bool) (impl.Outcome, *c07Finding) {
 			ctx, r, _ := impl.NewContext(w)
 			b.Mon.Reset()
